@@ -18,6 +18,7 @@ import TboxModel.C20.CronProofs
 import TboxModel.C20.CCronProofs
 import TboxModel.C20.CCronFwd
 import TboxModel.C20.CCronMin
+import TboxModel.C20.Reads
 namespace Tbox.C20
 
 /-! ### Part 1 — the next-instant computations -/
@@ -669,6 +670,61 @@ theorem C20_refresh_again_same_target (a : Alarm) (e : Env) :
 /-- the target a running alarm stands for survives a refresh() issued before it is served (same wall second as the arm) -/
 example : (refresh { demoAlarm with st := .running, target := 1700008200, timer := some 1 } demoEnv).target = 1700008200 := by decide
 
+/-! ### Part 10 — the wall clock moves while one arming runs (readings as an oracle sequence, Reads.lean) -/
+
+/-- **one reading per arming**: whatever gettimeofday() would answer to a second, third … call inside the same
+`activeTimer()` (time passing, a second boundary, an NTP step in either direction, a failure) has no influence on
+the arming: two oracles that agree on the FIRST answer give the same alarm, result and number of readings (= 1). -/
+theorem C20_arm_reads_clock_once (a : Alarm) (e : Env) (c c' : Clock) (h0 : c 0 = c' 0) :
+    activeTimerR a e c = activeTimerR a e c' ∧ (activeTimerR a e c).2 = 1 := by
+  simp [activeTimerR, h0]
+
+/-- **the wait is never short, as measured by the reading taken when the alarm was armed** — for every oracle
+sequence `c` whose first answer is `us` µs: the armed delay `d` satisfies
+`d = 1000·(target − sec₀) − ⌊usec₀/1000⌋` with `sec₀ = us / 10⁶` (as stored into the uint32_t) and
+`usec₀ = us mod 10⁶`, both of the FIRST reading; and every later reading `u'` of the sequence that is not before the
+first one sees the deadline at or after the target (`u'/1000 + d ≥ 1000·target`: a later look at the clock is only later). -/
+theorem C20_delay_not_short_first_reading (a : Alarm) (e : Env) (c : Clock) (us : Nat) (hc : c 0 = some us)
+    (hs : a.sod < D) (hr : InRange (a.base (e.seen (some us))) a.offset) (hf : FarOk a (e.seen (some us)))
+    (hok : (activeTimerR a e c).1.2 = true) :
+    ∃ d, (activeTimerR a e c).1.1.timer = some (e.monoMs + d) ∧
+      w32 (us / 1000000) < (activeTimerR a e c).1.1.target ∧
+      d + us % 1000000 / 1000 = ((activeTimerR a e c).1.1.target - w32 (us / 1000000)) * 1000 ∧
+      (us / 1000000 < U32 → us / 1000 + d = (activeTimerR a e c).1.1.target * 1000 ∧
+        ∀ k u', c k = some u' → us ≤ u' → (activeTimerR a e c).1.1.target * 1000 ≤ u' / 1000 + d) := by
+  have hA : activeTimerR a e c = (activeTimer a (e.seen (some us)), 1) := by simp [activeTimerR, hc]
+  rw [hA] at hok ⊢
+  simp only at hok ⊢
+  obtain ⟨d, h1, h2, h3, h4⟩ := C20_delay_not_short a (e.seen (some us)) hs hr hf hok
+  have hdiv : us / 1000 / 1000 = us / 1000000 := by omega
+  have hsec : (e.seen (some us)).sec = w32 (us / 1000000) := by
+    show w32 (us / 1000 / 1000) = _; rw [hdiv]
+  have hms : (e.seen (some us)).ms = us % 1000000 / 1000 := by
+    show us / 1000 % 1000 = _; omega
+  have hmono : (e.seen (some us)).monoMs = e.monoMs := rfl
+  have hw : (e.seen (some us)).wallMs = us / 1000 := rfl
+  rw [hsec] at h2 h3; rw [hms] at h3; rw [hmono] at h1; rw [hw] at h4
+  refine ⟨d, h1, h2, h3, ?_⟩
+  intro hlt
+  have h5 := h4 (by rw [hdiv]; exact hlt)
+  refine ⟨h5, ?_⟩
+  intro k u' _ hle
+  have : us / 1000 ≤ u' / 1000 := Nat.div_le_div_right hle
+  omega
+
+/-- what mixing two readings would do (seconds of a SECOND reading, sub-second part of the first — not what the code
+does): first reading 09:59:58.999900, second 09:59:59.000100.  Instant 10:00:00 (1000.1 ms away): 1 ms is armed
+instead of 1001; instant 09:59:59 (0.1 ms away): `0·1000 − 999` wraps in uint64_t. -/
+theorem C20_second_reading_counterexample :
+    delayTwoReadings 1700042400 1700042398999900 1700042399000100 = 1 ∧
+    delayTwoReadings 1700042400 1700042398999900 1700042398999900 = 1001 ∧
+    delayTwoReadings 1700042399 1700042398999900 1700042399000100 = 18446744073709550617 := by decide
+
+/-- remainSeconds() reads the clock exactly when the alarm is enabled, and once -/
+theorem C20_remain_reads_clock_once (a : Alarm) (e : Env) (c c' : Clock) (h0 : c 0 = c' 0) :
+    remainSecondsR a e c = remainSecondsR a e c' ∧ (remainSecondsR a e c).2 ≤ 1 := by
+  unfold remainSecondsR; rw [h0]; split <;> simp
+
 /-! ### non-vacuity -/
 
 /-- Tuesday 2023-11-14 22:13:20 UTC, alarm at 10:00 on Wednesdays and Sundays → Wed 10:00 -/
@@ -709,5 +765,10 @@ example : (Cron.parse [⟨.one 0, none⟩] [⟨.one 0, none⟩] [⟨.one 12, non
     (fun e => (Cron.dayOk e 19676, Cron.dayOk e 19675, Cron.timeOk e 43200, Cron.timeOk e 43201)) = some (true, false, true, false) := by decide
 /-- Sunday as 7, a step from a bare number, a rejected range -/
 example : (Cron.fieldBits [⟨.one 1, some 2⟩] 0 8, Cron.fieldBits [⟨.span 5 3, none⟩] 0 60) = (some 0b10101010, none) := by decide
+
+/-- hypotheses of `C20_delay_not_short_first_reading` are satisfiable: the clock crosses a second boundary between the readings -/
+example : let c : Clock := fun k => if k = 0 then some 1700000000999900 else some (1700000001000100 + 200 * k)
+    (activeTimerR demoAlarm demoEnv c).1.2 = true ∧ InRange (demoAlarm.base (demoEnv.seen (c 0))) demoAlarm.offset ∧
+    FarOk demoAlarm (demoEnv.seen (c 0)) ∧ demoAlarm.sod < D := by decide
 
 end Tbox.C20
